@@ -1059,10 +1059,17 @@ where
     }
     fn trace(&self, gc: &mut Gc) {
         #[cfg(gluon_verif)]
-        crate::verif::on_reach(gc.verif_id, self.header() as *const GcHeader as usize);
+        crate::verif::on_reach(
+            gc.verif_id,
+            self.header() as *const GcHeader as usize,
+            std::any::type_name::<T>(),
+        );
         if !gc.mark(self) {
             #[cfg(gluon_verif)]
-            let _verif_guard = crate::verif::enter(self.header() as *const GcHeader as usize);
+            let _verif_guard = crate::verif::enter(
+                self.header() as *const GcHeader as usize,
+                std::any::type_name::<T>(),
+            );
             // Continue traversing if this ptr was not already marked
             (**self).trace(gc);
         }
